@@ -100,8 +100,11 @@ def main(argv=None):
                 items.append(Item(f"{pid}/{reg.get(q).short}/binding", "unknown", "front-end", 0.0, detail=str(e),
                                   func=q))
             except GenerationError as e:
-                items.append(Item(f"{pid}/{reg.get(q).short}/generation", "error", "front-end", 0.0, detail=str(e),
-                                  func=q))
+                # the contract does not bind to the function as it is now written (renamed local the invariants mention,
+                # a new loop without invariant, a statement outside the subset): undecided, not a violation and not a
+                # crash of the checker; a failing input found natively still decides
+                items.append(Item(f"{pid}/{reg.get(q).short}/generation", "unknown", "front-end", 0.0,
+                                  detail="contract no longer binds: " + str(e), func=q))
         if hasattr(mod, "extra"):
             items += mod.extra(repo, reg, tier, seed)
     except Exception:
@@ -148,8 +151,24 @@ def main(argv=None):
                     with open(path, "w") as f:
                         json.dump(rep, f, indent=1, default=str)
                     confirmed = True
-            if confirmed is not True and it.mode == "F":
-                it.verdict = "spurious" if confirmed is False else "refuted-unreplayed"
+            if confirmed is not True and getattr(it, "shape", False):
+                # the expected form of the code is gone: decide natively, else report the lost binding as undecided
+                w = native_search(mod, it.func, searched, tier, seed, it.name) if it.func else None
+                if w is None and it.func and tier != "thorough":
+                    # nothing at the quick depth: the lost shape buys the deeper bounded search before giving up
+                    w = native_search(mod, it.func, {}, "thorough", seed, it.name)
+                if w is not None:
+                    rep["native_search_witness"] = w
+                    with open(path, "w") as f:
+                        json.dump(rep, f, indent=1, default=str)
+                    confirmed = True
+                else:
+                    it.verdict = "shape-lost"
+                    it.detail = ("the code no longer has the form this obligation was discharged for and the bounded search "
+                                 "found no failing input: re-anchor the contract; " + it.detail)
+            if confirmed is not True and (it.mode == "F" or it.verdict == "shape-lost"):
+                if it.verdict != "shape-lost":
+                    it.verdict = "spurious" if confirmed is False else "refuted-unreplayed"
                 undecided.append(it)
             elif k is not None and k["kind"] == "finding":
                 known_hits.append((it, k))
